@@ -14,7 +14,7 @@ RULE = ('Hypothesis-generated scan circuits (data inputs, a clock that reaches o
         '*_launch + *_capture, with and without P on the clock), values 0 1 N / L H X, line breaks inside value strings, Ann/Macro/W/C noise. '
         'Oracle: expected tests / responses / tests_loc arrays computed from the generator model (row order = s_nodes; character j of a load/unload '
         'string belongs to the j-th cell counted from scan-out; load value XOR parity of markers between scan-in and the cell, unload value XOR '
-        'parity between the cell and scan-out; LoC: own 4-valued evaluation of the next state). X and - compared as one class. non-trivial: a chain '
+        'parity between the cell and scan-out; LoC: own 4-valued evaluation of the next state), for any call order, repeated calls, pass-through filters, and for a second circuit (other port / flip-flop order) served by the same parse result. X and - compared as one class. non-trivial: a chain '
         'with >= 3 cells and a marker strictly inside it, >= 2 patterns; distinct by SHA-1.')
 ASSUMPTIONS = ['rows the statement does not define are only required to be unknown/unassigned (outputs in tests, inputs in responses) or skipped '
                '(clock row and inputs of patterns without capture pulse in tests_loc)']
@@ -157,90 +157,110 @@ def ucls(a):
 
 def prop(case):
     from kyupy import stil
-    from kyupy.circuit import Node, Line
+    from kyupy.circuit import Node
     nl, chains = case['nl'], case['chains']
-    b = build(nl)
-    c = b.c
-    if case['latch']:       # a latch next to the scan flip-flops: it has a row in s_nodes but belongs to no chain
-        Node(c, 'lat0', 'LATCH')
     text = render(case)
     sf = stil.parse(text)
-    s_len = len(c.s_nodes)
     npat = len(case['pats'])
     clk = case['ndata']
-    pi_rows = [b.s_pos(n) for n in b.pi]
-    po_rows = [b.s_pos(n) for n in b.po]
-    st_rows = [b.s_pos(n) for n in b.st]
-    # ---- expected ------------------------------------------------------------------------------------
-    exp_t = np.full((s_len, npat), 2)
-    exp_r = np.full((s_len, npat), 2)
-    exp_l = np.full((s_len, npat), -1)      # -1: not compared
-    inner_marker = False
-    for i, pat in enumerate(case['pats']):
-        loaded = {}
-        for j, ch in enumerate(chains):
-            n = len(ch['cells'])
-            for pos in range(n):               # position counted from scan-out
-                k = n - 1 - pos                # index in scan-in -> scan-out order
-                cell = ch['cells'][k]
-                inv_in = sum(ch['marks'][:k + 1]) % 2
-                inv_out = sum(ch['marks'][k + 1:]) % 2
-                v = CHARCODE[pat['loads'][j][pos]]
-                if v in (0, 3) and inv_in: v = 3 - v
-                loaded[cell] = v
-                exp_t[st_rows[cell], i] = v
-                u = CHARCODE[pat['unloads'][j][pos]]
-                if u in (0, 3) and inv_out: u = 3 - u
-                exp_r[st_rows[cell], i] = u
-            if n >= 3 and any(ch['marks'][1:n]):
-                inner_marker = True
-        lpi, cap_pi = pi_strings(pat, clk)
-        for k in range(nl['pi']):
-            exp_t[pi_rows[k], i] = CHARCODE[cap_pi[k]]
-        for k in range(len(nl['po'])):
-            exp_r[po_rows[k], i] = CHARCODE[pat['po'][k]]
-        # launch-on-capture
-        first_pi = lpi if pat['style'] != 'sa' else cap_pi
-        pi_codes = [CHARCODE[x] for x in first_pi]
-        st_codes = [loaded[k] for k in range(len(nl['st']))]
-        sig = rm.evalmv(nl, pi_codes, st_codes)
-        both_pulse = pat['style'] != 'sa' and 'P' in lpi and 'P' in cap_pi
+    inner = [False]
 
-        def trans(a, z):
-            if a in (1, 2) or z in (1, 2): return 1
-            iv, fv = (a >> 1) & 1, z & 1
-            return (iv << 1) | fv | (4 if iv != fv else 0)
-        for k in range(len(nl['st'])):
-            nxt = rm.enc(sig[nl['st'][k]['d']]) if both_pulse else st_codes[k]
-            exp_l[st_rows[k], i] = trans(st_codes[k], nxt)
-        if 'P' in cap_pi:
+    def one_circuit(nl_, tag, order):
+        b = build(nl_)
+        c = b.c
+        if case['latch']:       # a latch next to the scan flip-flops: it has a row in s_nodes but belongs to no chain
+            Node(c, 'lat0', 'LATCH')
+        s_len = len(c.s_nodes)
+        pi_rows = [b.s_pos(n) for n in b.pi]
+        po_rows = [b.s_pos(n) for n in b.po]
+        st_rows = [b.s_pos(n) for n in b.st]
+        # ---- expected --------------------------------------------------------------------------------
+        exp_t = np.full((s_len, npat), 2)
+        exp_r = np.full((s_len, npat), 2)
+        exp_l = np.full((s_len, npat), -1)      # -1: not compared
+        for i, pat in enumerate(case['pats']):
+            loaded = {}
+            for j, ch in enumerate(chains):
+                n = len(ch['cells'])
+                for pos in range(n):               # position counted from scan-out
+                    k = n - 1 - pos                # index in scan-in -> scan-out order
+                    cell = ch['cells'][k]
+                    inv_in = sum(ch['marks'][:k + 1]) % 2
+                    inv_out = sum(ch['marks'][k + 1:]) % 2
+                    v = CHARCODE[pat['loads'][j][pos]]
+                    if v in (0, 3) and inv_in: v = 3 - v
+                    loaded[cell] = v
+                    exp_t[st_rows[cell], i] = v
+                    u = CHARCODE[pat['unloads'][j][pos]]
+                    if u in (0, 3) and inv_out: u = 3 - u
+                    exp_r[st_rows[cell], i] = u
+                if n >= 3 and any(ch['marks'][1:n]):
+                    inner[0] = True
+            lpi, cap_pi = pi_strings(pat, clk)
             for k in range(nl['pi']):
-                if first_pi[k] == 'P' or cap_pi[k] == 'P':
-                    continue
-                exp_l[pi_rows[k], i] = trans(CHARCODE[first_pi[k]], CHARCODE[cap_pi[k]])
-    # ---- compare -------------------------------------------------------------------------------------
-    def cmp(name, got, exp, rows_defined):
-        got = np.array(got)
-        if got.shape != (s_len, npat):
-            raise Violation(f'{name}: shape {got.shape}, expected ({s_len} ports+state elements in s_nodes order, {npat} patterns)\n{text}')
-        for r in range(s_len):
-            for i in range(npat):
-                e = exp[r, i]
-                if e < 0:
-                    continue
-                g = int(got[r, i])
-                if (1 if g == 2 else g) != (1 if e == 2 else e):
-                    raise Violation(f'{name}: row {r} ({c.s_nodes[r].name}) pattern {i} = {g}, expected {e}\nchains {chains}\n{text}')
+                exp_t[pi_rows[k], i] = CHARCODE[cap_pi[k]]
+            for k in range(len(nl['po'])):
+                exp_r[po_rows[k], i] = CHARCODE[pat['po'][k]]
+            # launch-on-capture
+            first_pi = lpi if pat['style'] != 'sa' else cap_pi
+            pi_codes = [CHARCODE[x] for x in first_pi]
+            st_codes = [loaded[k] for k in range(len(nl['st']))]
+            sig = rm.evalmv(nl, pi_codes, st_codes)
+            both_pulse = pat['style'] != 'sa' and 'P' in lpi and 'P' in cap_pi
 
-    cmp('tests', sf.tests(c), exp_t, None)
-    cmp('responses', sf.responses(c), exp_r, None)
-    cmp('tests_loc', sf.tests_loc(c), exp_l, None)
+            def trans(a, z):
+                if a in (1, 2) or z in (1, 2): return 1
+                iv, fv = (a >> 1) & 1, z & 1
+                return (iv << 1) | fv | (4 if iv != fv else 0)
+            for k in range(len(nl['st'])):
+                nxt = rm.enc(sig[nl['st'][k]['d']]) if both_pulse else st_codes[k]
+                exp_l[st_rows[k], i] = trans(st_codes[k], nxt)
+            if 'P' in cap_pi:
+                for k in range(nl['pi']):
+                    if first_pi[k] == 'P' or cap_pi[k] == 'P':
+                        continue
+                    exp_l[pi_rows[k], i] = trans(CHARCODE[first_pi[k]], CHARCODE[cap_pi[k]])
+
+        # ---- compare ---------------------------------------------------------------------------------
+        def cmp(name, got, exp):
+            got = np.array(got)
+            if got.shape != (s_len, npat):
+                raise Violation(f'{tag}{name}: shape {got.shape}, expected ({s_len} ports+state elements in s_nodes order, {npat} patterns)\n{text}')
+            for r in range(s_len):
+                for i in range(npat):
+                    e = exp[r, i]
+                    if e < 0:
+                        continue
+                    g = int(got[r, i])
+                    if (1 if g == 2 else g) != (1 if e == 2 else e):
+                        raise Violation(f'{tag}{name}: row {r} ({c.s_nodes[r].name}) pattern {i} = {g}, expected {e}\nchains {chains}\n{text}')
+
+        if order == 1:                     # any call order, repeated calls and pass-through filters give the same arrays
+            cmp('responses (called first)', sf.responses(c), exp_r)
+            cmp('tests_loc (called second)', sf.tests_loc(c, init_filter=lambda a: a, launch_filter=lambda a: a), exp_l)
+        elif order == 2:
+            cmp('tests_loc (called first)', sf.tests_loc(c), exp_l)
+            cmp('tests (first call)', sf.tests(c), exp_t)
+        cmp('tests', sf.tests(c), exp_t)
+        cmp('responses', sf.responses(c), exp_r)
+        cmp('tests_loc', sf.tests_loc(c), exp_l)
+        if order == 3:
+            cmp('tests (second call)', sf.tests(c), exp_t)
+            cmp('responses (second call)', sf.responses(c), exp_r)
+        return s_len
+
+    s_len = one_circuit(nl, '', case['brk'] % 4)
     labels = []
-    if inner_marker: labels.append('marker_inside_chain>=3')
+    if case['brk'] % 3 == 0:
+        # the same parse result applied to a second circuit: same netlist, ports and flip-flops created in another order
+        nl2 = dict(nl, ports=list(reversed(nl['ports'])), strev=True, rev=not nl.get('rev'))
+        one_circuit(nl2, 'second circuit with other port/state order: ', (case['brk'] // 3) % 4)
+        labels.append('parse_result_used_for_two_circuits')
+    if inner[0]: labels.append('marker_inside_chain>=3')
     if len(chains) > 1: labels.append('several_chains')
     if any(p['style'] != 'sa' for p in case['pats']): labels.append('loc_patterns')
     if any(ch['dotted'] for ch in chains): labels.append('dotted_cell_names')
-    return Obs(inner_marker and npat >= 2, labels, checks=3 * s_len * npat)
+    return Obs(inner[0] and npat >= 2, labels, checks=3 * s_len * npat)
 
 
 PARTS = [Part('patterns', prop, strategy=cases, quick=(8, 250), thorough=(16, 2500))]
